@@ -3,7 +3,7 @@
 From stdpp Require Import gmap strings.
 From Coq Require Import NArith.
 From SV Require Import CfgState.Model CfgState.Spec CfgState.Gen CfgState.GenSteps CfgState.ReplayProofs
-  CfgState.ReplayBuckets CfgState.InvRProofs.
+  CfgState.ReplayBuckets CfgState.InvRProofs C05.Framing.
 Open Scope N_scope.
 
 (** C05 at full strength on the model: for every state reachable by any
@@ -74,6 +74,47 @@ Theorem replay_concat :
     let '(s1, n1) := replay fingerprint inames hc_valid steps l1 s in
     let '(s2, n2) := replay fingerprint inames hc_valid steps l2 s1 in (s2, (n1 + n2)%nat).
 Proof. intros. apply replay_app. Qed.
+
+(** * The state-file framing (payload codec = parameter) *)
+
+(** what write_requests_to_file writes, parse_several_requests reads back:
+    every record, in order, nothing left — for every list of requests, given
+    that a JSON payload contains no NUL byte (serde_json escapes control
+    characters; named assumption) and decodes to itself when followed by the
+    newline *)
+Theorem statefile_round_trip :
+  forall (R : Type) (encode : R -> list N) (decode : list N -> option R),
+    (forall r, ~ In 0 (encode r)) -> (forall r, decode (app (encode r) [10]) = Some r) ->
+    forall rs, parse R decode (List.concat (map (frame R encode) rs)) = (rs, []).
+Proof. intros. apply parse_written; assumption. Qed.
+
+(** a file cut anywhere inside its last record: all complete records are
+    delivered, the cut record stays unparsed (the load loop then reports it) *)
+Theorem statefile_truncated :
+  forall (R : Type) (encode : R -> list N) (decode : list N -> option R),
+    (forall r, ~ In 0 (encode r)) -> (forall r, decode (app (encode r) [10]) = Some r) ->
+    forall rs p, ~ In 0 p -> parse R decode (app (List.concat (map (frame R encode) rs)) p) = (rs, p).
+Proof. intros. apply parse_truncated; assumption. Qed.
+
+(** an empty or undecodable record stops the parse at that record *)
+Theorem statefile_garbage :
+  forall (R : Type) (encode : R -> list N) (decode : list N -> option R),
+    (forall r, ~ In 0 (encode r)) -> (forall r, decode (app (encode r) [10]) = Some r) ->
+    forall rs g more, ~ In 0 g -> (g = [] \/ decode g = None) ->
+      parse R decode (app (List.concat (map (frame R encode) rs)) (app g (0 :: more))) = (rs, app g (0 :: more)).
+Proof. intros. apply parse_garbage; assumption. Qed.
+
+(** SAVE-<n> ids: a counter of modulus M numbers n requests without repetition
+    exactly when n <= M; both save paths count in usize (checked against the
+    source on every run), so ids are pairwise distinct for every list that fits
+    in memory (the decimal rendering of the counter is injective: assumption) *)
+Theorem save_ids_distinct :
+  forall M n, (0 < M)%nat -> (List.NoDup (counters M n) <-> (n <= M)%nat).
+Proof.
+  intros M n HM. split.
+  - intros Hnd. destruct (le_lt_dec n M) as [H|H]; [exact H|]. exfalso. exact (counters_dup M n HM H Hnd).
+  - apply counters_nodup.
+Qed.
 
 (** non-vacuity: a state with an active listener, a cluster with a health check
     and a frontend satisfies the hypotheses and is rebuilt *)
